@@ -231,7 +231,7 @@ func RunLockCase(rng *rand.Rand) *AsyncResult {
 	sort.Slice(und, func(i, j int) bool { return und[i] < und[j] })
 	for k := 0; k < 3+rng.Intn(4); k++ {
 		pp := adv.prePrepare(l3, 3, rng.Intn(3) == 0)
-		if k == 0 {
+		if k == 0 && len(meta.CompareFailPairs) > 0 {
 			pp = adv.prePrepareLowest(l3, 3) // the strongest well-formed attack first
 		}
 		if pp == nil {
@@ -256,6 +256,161 @@ func RunLockCase(rng *rand.Rand) *AsyncResult {
 		}
 	}
 	r.Run() // random adversarial continuation
+	s.Stop()
+
+	return res
+}
+
+// RunPartialCommitCase builds, by a directed schedule, the state in which value A gathered COMMITs
+// from fewer than a quorum of members in round 1 (the largest number that still lets the others
+// form a null ROUND-CHANGE quorum), was never decided, and another value B is then decided by
+// everybody else in round 2 while the committers of A are partitioned away. The coalition then
+// presents the committers with a DECIDED for A backed by exactly the genuine COMMITs it collected
+// plus its own — one or more short of a quorum unless n = 3f+1 — and improvises from there.
+// Exercises the DECIDED quorum size for every cluster size (2f+1 differs from the quorum for n = 5, 6).
+func RunPartialCommitCase(rng *rand.Rand) *AsyncResult {
+	n := []int{4, 5, 5, 6, 6, 6, 7}[rng.Intn(7)]
+	f := Faulty(n)
+	q := Quorum(n)
+	var inst, l1, l2 int64
+	for {
+		inst = rng.Int63n(int64(n) * 3)
+		l1, l2 = Leader(inst, 1, n), Leader(inst, 2, n)
+		if l1 != l2 {
+			break
+		}
+	}
+	var byz []int64
+	for len(byz) < f {
+		c := rng.Int63n(int64(n))
+		if c != l1 && c != l2 && !in(byz, c) {
+			byz = append(byz, c)
+		}
+	}
+	var honest []int64
+	for i := 0; i < n; i++ {
+		if !in(byz, int64(i)) {
+			honest = append(honest, int64(i))
+		}
+	}
+	meta := CaseMeta{N: n, Instance: inst, Byz: byz, Honest: honest, Inputs: map[int64]int64{}, FIFO: 100,
+		Timer: []string{"inc", "eager", "linear"}[rng.Intn(3)], Policy: "partial-commit"}
+	for i, id := range honest {
+		meta.Inputs[id] = int64(11 + i)
+	}
+	va, vb := meta.Inputs[l1], meta.Inputs[l2]
+	cfg := Config{N: n, Instance: inst, FIFOLimit: 100, Honest: honest, TimerKind: meta.Timer,
+		Duty: core.Duty{Slot: uint64(inst), Type: core.DutyAttester}}
+	s := New(cfg)
+	adv := NewAdversary(s, byz, []int64{va, vb, 91}, rand.New(rand.NewSource(rng.Int63()))) //nolint:gosec // reproducible
+	opt := AsyncOpts{MaxSteps: 600, Inputs: meta.Inputs, Adv: adv, InjectW: 1.0, TimerW: 0.02, DupP: 0.1, ExtraSteps: 5}
+	r := NewRunner(s, rng, opt)
+	res := &AsyncResult{Meta: meta, Sim: s, Runner: r, Adv: adv}
+	for _, id := range honest {
+		r.ev("start", id, nil)
+		s.Start(id)
+	}
+	for _, id := range honest {
+		r.ev("input", id, nil)
+		s.GiveInput(id, meta.Inputs[id])
+	}
+	// committers C (never the round-2 leader), |C| <= n-q so that the others still form a quorum of ROUND-CHANGEs
+	var pool []int64
+	for _, id := range honest {
+		if id != l2 {
+			pool = append(pool, id)
+		}
+	}
+	rng.Shuffle(len(pool), func(i, j int) { pool[i], pool[j] = pool[j], pool[i] })
+	maxC := n - q
+	nc := maxC
+	if rng.Intn(4) == 0 {
+		nc = 1 + rng.Intn(maxC)
+	}
+	cset := append([]int64(nil), pool[:nc]...)
+	// receivers of PRE-PREPARE(A): the committers plus enough others for q-f honest PREPAREs
+	pset := append([]int64(nil), cset...)
+	for _, id := range pool[nc:] {
+		if len(pset) >= q-f {
+			break
+		}
+		pset = append(pset, id)
+	}
+	if len(pset) < q-f {
+		pset = append(pset, l2)
+	}
+	r.deliverWhere(func(pd Pending) bool { return pd.M.Typ == qbft.MsgPrePrepare && pd.M.Rnd == 1 && in(pset, pd.To) })
+	for _, id := range cset {
+		for _, b := range byz {
+			r.Inject(id, adv.mk(qbft.MsgPrepare, b, 1, va, 0, 0, nil))
+		}
+	}
+	r.deliverWhere(func(pd Pending) bool { return pd.M.Typ == qbft.MsgPrepare && pd.M.Rnd == 1 && in(cset, pd.To) })
+	r.dropWhere(func(pd Pending) bool { return pd.M.Rnd == 1 }) // the COMMITs for A reach nobody but the coalition
+	for _, id := range honest {
+		r.ev("timer", id, nil)
+		s.FireTimer(id)
+	}
+	// the round-2 leader hears only members that know nothing of A
+	for _, b := range byz {
+		r.Inject(l2, adv.mk(qbft.MsgRoundChange, b, 2, 0, 0, 0, nil))
+	}
+	r.deliverWhere(func(pd Pending) bool {
+		return pd.M.Typ == qbft.MsgRoundChange && pd.M.Rnd == 2 && pd.To == l2 && !in(cset, pd.M.Src) && !in(pset, pd.M.Src)
+	})
+	r.deliverWhere(func(pd Pending) bool {
+		return pd.M.Typ == qbft.MsgRoundChange && pd.M.Rnd == 2 && pd.To == l2 && !in(cset, pd.M.Src)
+	})
+	// victims: a non-empty subset of the committers is partitioned away from round 2
+	nv := 1 + rng.Intn(len(cset))
+	victims := cset[:nv]
+	meta.Partition = [][]int64{victims}
+	res.Meta = meta
+	rest := func(id int64) bool { return !in(victims, id) }
+	r.deliverWhere(func(pd Pending) bool { return pd.M.Typ == qbft.MsgPrePrepare && pd.M.Rnd == 2 && rest(pd.To) })
+	for _, phase := range []qbft.MsgType{qbft.MsgPrepare, qbft.MsgCommit} {
+		for _, id := range honest {
+			if !rest(id) {
+				continue
+			}
+			for _, b := range byz {
+				r.Inject(id, adv.mk(phase, b, 2, vb, 0, 0, nil))
+			}
+		}
+		r.deliverWhere(func(pd Pending) bool { return pd.M.Typ == phase && pd.M.Rnd == 2 && rest(pd.To) })
+	}
+	r.dropWhere(func(pd Pending) bool { return pd.M.Rnd <= 2 && pd.M.Typ != qbft.MsgDecided })
+	// the coalition presents A as decided: genuine COMMITs of round 1 plus its own
+	var just []QMsg
+	var srcs []int64
+	for src := range adv.commits[rv{1, va}] {
+		srcs = append(srcs, src)
+	}
+	sort.Slice(srcs, func(i, j int) bool { return srcs[i] < srcs[j] })
+	for _, src := range srcs {
+		if !in(byz, src) {
+			just = append(just, adv.commits[rv{1, va}][src])
+		}
+	}
+	for _, b := range byz {
+		just = append(just, adv.mk(qbft.MsgCommit, b, 1, va, 0, 0, nil).Flat())
+	}
+	adv.StratCount["partial-commit/decided-short-of-quorum"]++
+	for _, v := range victims {
+		if s.Procs[v].CanReceive() {
+			r.Inject(v, adv.mk(qbft.MsgDecided, byz[rng.Intn(len(byz))], 1, va, 0, 0, just))
+		}
+	}
+	for k := 0; k < 2+rng.Intn(3); k++ {
+		for _, v := range victims {
+			if s.Procs[v].CanReceive() {
+				if m := adv.decidedMsg(byz[rng.Intn(len(byz))], rng.Intn(2) == 0); m != nil {
+					r.Inject(v, m)
+				}
+			}
+		}
+	}
+	r.Run()
 	s.Stop()
 
 	return res
